@@ -6,6 +6,8 @@
 
 mod common;
 mod evo;
+mod hostile;
+mod inputs;
 mod replay;
 mod rt;
 
@@ -107,6 +109,8 @@ fn main() {
                 "C02" => rt::c02(&mut ctx, &mut acc),
                 "C03" => evo::c03(&mut ctx, &mut acc),
                 "C04" => rt::c04(&mut ctx, &mut acc),
+                "C05" => hostile::c05(&mut ctx, &mut acc),
+                "C06" => hostile::c06(&mut ctx, &mut acc),
                 "C07" => rt::c07(&mut ctx, &mut acc),
                 "C08" => rt::c08(&mut ctx, &mut acc),
                 other => {
